@@ -96,7 +96,7 @@ def keep(prop, x, name, results):
     print("kept", dst)
 
 
-if __name__ == "__main__":
+if __name__ == "__main__" and sys.argv[1] != "recheck":
     cmd, prop, x = sys.argv[1:4]
     if cmd == "confirm":
         confirm(prop, x)
@@ -110,3 +110,39 @@ if __name__ == "__main__":
             sys.exit(1)
         d = detect(prop, x, sys.argv[5:] or None)
         keep(prop, x, name, {"confirm": c, "detect": d})
+
+
+def recheck(name, checks=None, tier="quick", keep_meta=True):
+    """Re-run checks against a kept seeded change in a throw-away worktree"""
+    d = os.path.join(HERE, "seeded", name)
+    meta = json.load(open(os.path.join(d, "meta.json")))
+    prop = meta["property"]
+    wt = "/tmp/mut/re-%s-%d" % (name, os.getpid())
+    sh("git -C /repo worktree add --detach %s HEAD -q" % wt, "/")
+    results = {}
+    try:
+        rc, o = sh("git apply %s" % os.path.join(d, "patch.diff"), wt)
+        if rc:
+            print("cannot apply:", o)
+            return None
+        env = "VERIF_REPO=%s PYTHONPATH=%s " % (wt, wt)
+        for c in checks or [prop]:
+            t0 = time.time()
+            rc, o = sh("%s./check %s --tier %s --no-evidence" % (env, c, tier), HERE, 3600)
+            sigs = [l.strip().split("signature: ")[1] for l in o.splitlines() if "signature: " in l]
+            results[c] = {"exit": rc, "signatures": sigs, "wall_s": round(time.time() - t0, 1), "harness_error": "HARNESS-ERROR" in o}
+            print(name, c, "exit", rc, "in %.0fs" % (time.time() - t0), sigs[:4], "HARNESS-ERROR" if "HARNESS-ERROR" in o else "")
+            if "HARNESS-ERROR" in o:
+                print(o[-1200:])
+    finally:
+        sh("git -C /repo worktree remove --force %s" % wt, "/")
+        shutil.rmtree(os.path.join(HERE, "replays", "out"), ignore_errors=True)
+    if keep_meta:
+        meta.setdefault("rechecks", []).append({"tier": tier, "results": results, "verif_commit": sh("git rev-parse --short HEAD", HERE)[1].strip()})
+        meta["detected_by"] = sorted(set(meta.get("detected_by", [])) | set(c for c, r in results.items() if r["exit"] == 1))
+        json.dump(meta, open(os.path.join(d, "meta.json"), "w"), indent=1)
+    return results
+
+
+if __name__ == "__main__" and sys.argv[1] == "recheck":
+    recheck(sys.argv[2], sys.argv[3:] or None)
